@@ -80,6 +80,41 @@ def probes(vals, hdr, r):
             r.violate('C25:client-could-send-on-stream-1:%s' % name, o.out.hex()[:40])
         elif not o.is_h2error():
             r.violate('C25:client-send-on-stream-1-wrong-exception:%s' % o.exc_name, '')
+    # positive probe: each side sends as much body as it believes the peer's windows allow (the server as the
+    # response on stream 1, the client on its first new stream); the receiver never acknowledges anything and
+    # must accept all of it - the flow-control windows of the upgraded connection agree on both sides
+    q = clone()
+    for side, sid, first in (('s', 1, [(':status', '200')]), ('c', 3, REQ)):
+        o = q.call(side, 'send_headers', (sid, first), {})
+        r.evals += 1
+        if not o.ok:
+            r.violate('C25:first-send-after-upgrade-refused:%s:%s' % (side, o.exc_name), repr(o.exc))
+            return
+        total = 0
+        for _ in range(80):
+            ep = q.ep[side].c
+            try:
+                w = min(ep.local_flow_control_window(sid), ep.max_outbound_frame_size, 16384)
+            except Exception as e:   # noqa: BLE001
+                r.violate('C25:window-query-raised-after-upgrade:%s' % type(e).__name__, repr(e))
+                return
+            if w <= 0:
+                break
+            o = q.call(side, 'send_data', (sid, b'b' * w), {})
+            if not o.ok:
+                r.violate('C25:send-within-reported-window-refused:%s:%s' % (side, o.exc_name), repr(o.exc))
+                return
+            total += w
+        o, _ = q.deliver(side, len(q.pipe[side]))
+        r.evals += 1
+        if not o.ok:
+            r.violate('C25:peer-refused-body-sent-within-reported-windows:%s:%s:code=%s' % (side, o.exc_name, o.code),
+                      '%d bytes sent by %s; %r' % (total, side, o.exc))
+            return
+        got = sum(len(e[2]) for e in o.events if e[0] == 'DataReceived' and e[1] == sid)
+        if got != total:
+            r.violate('C25:body-after-upgrade-not-delivered:%s' % side, 'sent %d received %d' % (total, got))
+            return
     q = clone()
     o = q.ep['s'].recv(wire.data(1, b'x'))
     r.evals += 1
